@@ -46,3 +46,68 @@ CHECKS["C01"] = dict(
     technique="property-based testing (rapid): model-based comparison after every batch + order-independence metamorphic relation",
     design_ref="DESIGN.md section 4, C01",
 )
+
+_SM_RULE = ("rapid state machine (t.Repeat, about 30 steps per case) over one real instance: create (points-first or "
+            "edge-first), mirror under a second parent, place under a parent id that has no edge yet, attach an edge above "
+            "an already populated subtree, tombstone/undelete (fresh or stale timestamp), node-point and edge-point batches "
+            "(1-4 points, colliding identities, stale times, -0/Inf/subnormal values), re-delivery of earlier batches; "
+            "after EVERY step the full dump (walk from the root, deleted included, plus detached placements) is compared "
+            "with the model graph: edge set, types, newest point per identity, and every stored hash against the Merkle "
+            "hash recomputed from the dump by an independent CRC/XOR implementation; every write's up.> traffic is "
+            "compared with the ancestor sets of the model. ")
+
+CHECKS["C03"] = dict(
+    pkg="c03", level="exploration",
+    props=[dict(name="TestPropMerkle", quick=240, thorough=16 * 1200, shards_quick=12, shards_thorough=16,
+                timeout_quick=900, timeout_thorough=7200)],
+    rule=_SM_RULE + "C03 additionally requests admin.storeVerify and admin.storeMaint every 4th step and demands that "
+         "maintenance changes nothing. Non-trivial = the graph has a mirror or a late-attached parent AND an edge-point "
+         "write happened.",
+    assumptions=["writes are sequential, so every step is quiescent",
+                 "node-type points count as CRC 0 (they are not stored, by design)",
+                 "timestamps distinct per identity"],
+    level_text="Generated histories (rapid state machine) with the Merkle equality as an invariant after every step, computed "
+               "from read results by an independent implementation of the documented definition; equal content => equal "
+               "hash follows because the oracle is a function of content only.",
+    level_note="Trusted: harness/internal/model (CRC-32 IEEE over LE64 time|type|key|text|LE64 value bits; XOR over points and "
+               "recomputed child hashes), the read path (a read that misreports content would have to do so consistently).",
+    technique="property-based testing (rapid state machine) with an independent Merkle-hash reference as invariant",
+    design_ref="DESIGN.md section 4, C03",
+)
+
+CHECKS["C05"] = dict(
+    pkg="c05", level="exploration",
+    props=[dict(name="TestPropRefusals", quick=300, thorough=16 * 1500, shards_quick=12, shards_thorough=16,
+                timeout_quick=900, timeout_thorough=7200)],
+    rule=_SM_RULE + "C05 adds refusal candidates built from the model: node as its own parent, an edge that closes a cycle "
+         "through live or deleted edges (also via detached parents), tombstone aimed at the root, first edge without node "
+         "type, NaN (quiet/signalling-style payloads, either sign) at a drawn position of a node- or edge-point batch, "
+         "undecodable payload. Each must be answered with an error, leave the dump (hashes included) identical, produce no "
+         "up.> message, and a following valid write must be acknowledged. Non-trivial = a cycle-through-deleted-edge or a "
+         "NaN-in-the-middle candidate was issued on a graph with >= 4 edges.",
+    assumptions=["tombstone values other than 0/1 aimed at the root are not asserted either way",
+                 "a request that gets no reply within 20 s counts as a violation (the instance stopped answering)"],
+    level_text="Generated histories (rapid state machine) with refusal candidates derived from the model graph; the no-trace "
+               "oracle compares complete dumps before and after and watches the rebroadcast stream on the same connection.",
+    level_note="Trusted: model reachability (WouldCycle through all edges), ordering of NATS deliveries on one connection "
+               "(everything the store published before its reply is queued before the reply is seen).",
+    technique="property-based testing (rapid state machine), model-derived invalid inputs, before/after dump equality",
+    design_ref="DESIGN.md section 4, C05",
+)
+
+CHECKS["C06"] = dict(
+    pkg="c06", level="exploration",
+    props=[dict(name="TestPropRebroadcast", quick=300, thorough=16 * 1500, shards_quick=12, shards_thorough=16,
+                timeout_quick=900, timeout_thorough=7200)],
+    rule=_SM_RULE + "C06 oracle, for every accepted write: subjects seen on up.> between request and reply must include "
+         "up.<a>.<node>[.<parent>] for the node itself and every ancestor (node points: through non-deleted edges; edge "
+         "points: through any edges), the root sentinel included when the root is reached, at least once each; no other "
+         "subject may appear (up.root.* tolerated for nodes not connected to the root); every message carries exactly the "
+         "points sent. Non-trivial = some write had >= 3 ancestors to notify and the graph has a tombstoned edge or a mirror.",
+    assumptions=["duplicates are legal (diamonds produce them)", "the expected sets are computed on the graph after the write"],
+    level_text="Generated graphs and writes (rapid state machine); the expected subject sets come from model reachability, "
+               "compared in both directions (nothing missing, nothing leaked) with payload equality.",
+    level_note="Trusted: model reachability; ordering of NATS deliveries on one connection.",
+    technique="property-based testing (rapid state machine) against a reachability model of the graph",
+    design_ref="DESIGN.md section 4, C06",
+)
